@@ -177,6 +177,11 @@ def etext(e, nm=IDENT):
         return "(%s).trimstr(%d, %d)" % (etext(e[1], nm), e[2], e[3])
     if t == "mapv":
         return '(%s).mapv({"s0": 1, "s1": 2}, 0)' % etext(e[1], nm)
+    if t == "uq":
+        a = etext(e[2], nm)
+        return "(-(%s))" % a if e[1] == "neg" else "(%s).%s()" % (a, e[1])
+    if t == "nan":
+        return "(%s).is_nan()" % etext(e[1], nm)
     raise ValueError("unknown expr tag %r" % (t,))
 
 
